@@ -50,13 +50,26 @@ def nout(node):
     return 1 if node["t"] == "L" else len(node["rets"])
 
 
+def selfarg(m):
+    """the name of the creator's first parameter"""
+    return m.get("selfarg", "self")
+
+
 def ret_expr(m, ret):
+    """source text of the returned expression (before an optional local alias)"""
+    sa = selfarg(m)
     if ret[0] == "a":
         return f"x{ret[1]}"
     ch = m["body"][ret[1]]
     if nout(ch) == 1:
-        return f"self.c{ret[1]}"
-    return f"self.c{ret[1]}.outputs.{out_labels(ch)[ret[2]]}"
+        return f"{sa}.c{ret[1]}"
+    return f"{sa}.c{ret[1]}.outputs.{out_labels(ch)[ret[2]]}"
+
+
+def ret_texts(m):
+    """what the return statement names: a local variable where the creator made one, else the expression"""
+    loc = m.get("loc") or [None] * len(m["rets"])
+    return [loc[r] if loc[r] else ret_expr(m, ret) for r, ret in enumerate(m["rets"])]
 
 
 def out_labels(node):
@@ -65,16 +78,24 @@ def out_labels(node):
         return ["o"]
     if node["lab"] == "declare":
         return [f"o{r}" for r in range(len(node["rets"]))]
+    loc = node.get("loc") or [None] * len(node["rets"])
     labs = []
-    for ret in node["rets"]:
-        labs.append(f"x{ret[1]}" if ret[0] == "a" else f"c{ret[1]}")
+    for r, ret in enumerate(node["rets"]):
+        if loc[r]:
+            labs.append(loc[r])  # a returned local variable is labelled by its own name
+        else:
+            labs.append(f"x{ret[1]}" if ret[0] == "a" else f"c{ret[1]}")
     return labs
 
 
 def can_scrape(m):
     """scraped labels must be dot-free and distinct"""
+    loc = m.get("loc") or [None] * len(m["rets"])
     labs = []
-    for ret in m["rets"]:
+    for r, ret in enumerate(m["rets"]):
+        if loc[r]:
+            labs.append(("loc", loc[r]))
+            continue
         if ret[0] == "o" and nout(m["body"][ret[1]]) != 1:
             return False
         labs.append(tuple(ret[:2]))
@@ -85,30 +106,47 @@ def src_expr(m, child_index, s):
     if s[0] == "a":
         return f"x{s[1]}"
     if s[0] == "o":
+        sa = selfarg(m)
         ch = m["body"][s[1]]
         if nout(ch) == 1:
-            return f"self.c{s[1]}"
-        return f"self.c{s[1]}.outputs.{out_labels(ch)[s[2]]}"
+            return f"{sa}.c{s[1]}"
+        return f"{sa}.c{s[1]}.outputs.{out_labels(ch)[s[2]]}"
     if s[0] == "k":
         return repr(to_py(s[1]))
     raise ValueError(s)
+
+
+def is_fwd(j, s):
+    """a keyword argument naming the child itself or a later child: wired after all children exist"""
+    return s[0] == "o" and s[1] >= j
 
 
 def child_ctor(m, j, ch):
     kws = []
     if ch["t"] == "L":
         for lab, s in zip(LEAF_IN, ch["srcs"]):
-            if s[0] != "n":
+            if s[0] != "n" and not is_fwd(j, s):
                 kws.append(f"{lab}={src_expr(m, j, s)}")
         return f"nodes.F{ch['f']}({', '.join(kws)})"
     for k, s in enumerate(ch["srcs"]):
-        if s[0] != "n":
+        if s[0] != "n" and not is_fwd(j, s):
             kws.append(f"x{k}={src_expr(m, j, s)}")
     return f"M{ch['id']}({', '.join(kws)})"
 
 
+def late_wiring(m):
+    sa = selfarg(m)
+    out = []
+    for j, ch in enumerate(m["body"]):
+        for i, s in enumerate(ch["srcs"]):
+            if is_fwd(j, s):
+                lab = LEAF_IN[i] if ch["t"] == "L" else f"x{i}"
+                out.append(f"{sa}.c{j}.inputs.{lab} = {src_expr(m, j, s)}")
+    return out
+
+
 def signature(m):
-    ps = ["self"]
+    ps = [selfarg(m)]
     for k, a in enumerate(m["args"]):
         p = f"x{k}"
         if a["h"]:
@@ -128,20 +166,26 @@ def signature(m):
 
 def render_macro(m):
     name = f"M{m['id']}"
+    sa = selfarg(m)
     body = []
     for j, ch in enumerate(m["body"]):
-        body.append(f"self.c{j} = {child_ctor(m, j, ch)}")
+        body.append(f"{sa}.c{j} = {child_ctor(m, j, ch)}")
+    body += late_wiring(m)
     flow = m.get("flow", "auto")
     n = len(m["body"])
     if flow == "wired":
-        body.append(" >> ".join(f"self.c{j}" for j in range(n)))
-        body.append("self.starting_nodes = [self.c0]")
+        body.append(" >> ".join(f"{sa}.c{j}" for j in range(n)))
+        body.append(f"{sa}.starting_nodes = [{sa}.c0]")
     elif flow == "signals-only":
-        body.append(" >> ".join(f"self.c{j}" for j in range(n)))
+        body.append(" >> ".join(f"{sa}.c{j}" for j in range(n)))
     elif flow == "starters-only":
-        body.append("self.starting_nodes = [self.c0]")
+        body.append(f"{sa}.starting_nodes = [{sa}.c0]")
     if m["rets"]:
-        body.append("return " + ", ".join(ret_expr(m, r) for r in m["rets"]))
+        loc = m.get("loc") or [None] * len(m["rets"])
+        for r, ret in enumerate(m["rets"]):
+            if loc[r]:
+                body.append(f"{loc[r]} = {ret_expr(m, ret)}")
+        body.append("return " + ", ".join(ret_texts(m)))
     elif not body:
         body.append("pass")
     labels = out_labels(m) if m["lab"] == "declare" else None
